@@ -6,6 +6,12 @@
   allow_bv_decide  true if the theorems may depend on `*._native.bv_decide.ax_*` axioms
   rule / explanation / assumptions / trusted / level_text / level_note / technique   evidence + MANIFEST texts
   no_harness   true for a property decided by generated-constant theorems alone
+  framework_checks  scripts validating the *specification side* against a second source (non-zero exit =
+               FRAMEWORK-ERROR, never a violation); run by `setup` and at the start of every `check`
+  eval_script / eval_modules  Lean file with a `main` (relative to lean/), run with `lake env lean --run` after
+               building eval_modules: evaluates the spec oracle on source-derived (generated) data and prints
+               `MISMATCH <row>` (concrete failing input -> VIOLATION replay), `UNCOVERED <row>`, `COUNTS k=v ...`
+  uncovered_note    text explaining the `uncovered` list in the evidence
 """
 import glob
 import json
